@@ -29,8 +29,9 @@ API (everything a property harness needs; C06 uses all of it, C07/C08 reuse it)
     The same driver without any patch, in the calling thread (the single-process reference run).
 
 ``SimResult``: ``.world_size``, ``.results`` (per rank or None), ``.partial``, ``.errors`` (per rank: None or the
-    exception), ``.logs`` (per rank list of events), ``.hangs`` (list of ``HangInfo`` dicts), ``.outcome`` in
-    {"ok", "hang", "error"}, ``.ok``.
+    exception; ``SimHang`` for a rank left waiting), ``.tracebacks``, ``.logs`` (per rank list of events), ``.hangs``
+    (list of ``HangInfo`` dicts), ``.hung_ranks()``, ``.outcome`` in {"ok", "hang", "error"} ("error" = some rank raised
+    something else than SimHang; hangs of its peers are then a consequence), ``.ok``, ``.wall_s``.
 
 Events in a rank's log (tuples, in program order of that rank):
     ("new_subgroups", group_size)                      dist.new_subgroups(group_size=...)
@@ -383,6 +384,7 @@ class SimCluster:
                 info = {"rank": rank, "collective": kind, "group": list(ranks), "seq": seq,
                         "arrived": sorted(slot["in"]), "missing": [r for r in ranks if r not in slot["in"]], "reason": reason}
                 self.hangs.append(info)
+                slot["in"].pop(rank, None)   # withdrawn: a later arrival must not complete against a rank that gave up
                 self._waiting[rank] = None
                 self._done[rank] = True      # this rank's program ends here: its peers must not wait for it
                 self._cond.notify_all()
@@ -513,10 +515,10 @@ def run_cluster(world_size: int, rank_fn: Callable[[RankCtx], Any], *, timeout: 
                         res.errors[r] = TimeoutError(f"rank {r} thread still running after the join limit")
         res.logs = cluster.logs
         res.hangs = list(cluster.hangs)
-    if res.hangs:
+    if any(e is not None and not isinstance(e, SimHang) for e in res.errors):
+        res.outcome = "error"      # a rank raised; hangs of its peers (if any) are a consequence, still listed in .hangs
+    elif res.hangs:
         res.outcome = "hang"
-    elif any(e is not None for e in res.errors):
-        res.outcome = "error"
     res.wall_s = time.time() - t0
     return res
 
